@@ -793,3 +793,41 @@ CV_FALLBACK = (
     '         | CMismatch => loop r true r0\n'
     '         end\n'
     '     end) views false None.\n')
+
+
+# ---------------------------------------------------------------- the meaning of a cache key never changes
+ORDER_ATTRS = ('__bases__', '__sro__', '__iro__')
+ORDER_CALLS = ('classImplements', 'classImplementsOnly', 'classImplementsFirst')
+
+
+def spec_orders_immutable(src_root):
+    """The cache key holds interface / specification OBJECTS; what a key means is their resolution order (__sro__).
+    The model takes the resolution orders as a fixed oracle, so nothing in src/pyramid may rewrite them: no store to
+    (or setattr of) __bases__ / __sro__ / __iro__, no classImplements* call (they rewrite a class's specification in
+    place).  Tests, scaffolds and p* scripts excluded."""
+    import os
+    bad = []
+    for d, _, fs in os.walk(os.path.join(src_root, 'pyramid')):
+        if os.sep + 'tests' in d or d.endswith('scripts') or 'scaffolds' in d:
+            continue
+        for fname in fs:
+            if not fname.endswith('.py'):
+                continue
+            path = os.path.join(d, fname)
+            rel = os.path.relpath(path, src_root)
+            text = open(path).read()
+            if not any(a in text for a in ORDER_ATTRS + ORDER_CALLS):
+                continue
+            for q, n in _qual_walk(ast.parse(text)):
+                if isinstance(n, ast.Attribute) and n.attr in ORDER_ATTRS and not isinstance(n.ctx, ast.Load):
+                    bad.append('%s:%s stores %s (line %d)' % (rel, q or '<module>', n.attr, n.lineno))
+                elif isinstance(n, ast.Call) and u(n.func) in ('setattr', 'delattr') and len(n.args) > 1 and \
+                        isinstance(n.args[1], ast.Constant) and n.args[1].value in ORDER_ATTRS:
+                    bad.append('%s:%s setattr %s (line %d)' % (rel, q or '<module>', n.args[1].value, n.lineno))
+                elif isinstance(n, ast.Call) and u(n.func).split('.')[-1] in ORDER_CALLS:
+                    bad.append('%s:%s calls %s (line %d)' % (rel, q or '<module>', u(n.func), n.lineno))
+                elif isinstance(n, (ast.Import, ast.ImportFrom)) and any(a.name in ORDER_CALLS for a in n.names):
+                    bad.append('%s imports %s (line %d)' % (rel, [a.name for a in n.names if a.name in ORDER_CALLS], n.lineno))
+    if bad:
+        raise Unknown('; '.join(bad[:4]))
+    return True
